@@ -337,7 +337,11 @@ def r_getattr_chain(ctx, repo):
     f = _method(repo, 'constructor.FullConstructor', 'find_python_name')
     gets = [c for c in A.func_calls(f.node) if isinstance(c.func, ast.Name) and c.func.id in ('getattr', 'hasattr') and c.args]
     if not gets:
-        raise AnalysisError('find_python_name: getattr not found')
+        rule.fail('%s|no-getattr' % f.qualname, f.module.rel, f.node.lineno, f.qualname, 'getattr(module, object_name)',
+                  'find_python_name no longer obtains the object with getattr(module, name): names that a module provides through '
+                  'its attribute protocol (module-level __getattr__, lazily exported classes) cannot be found, so objects whose '
+                  'class lives in such a module do not load, although pickle finds them')
+        return rule
     cfg = CFG(f.node)
     for c in gets:
         recv = c.args[0]
